@@ -24,8 +24,10 @@ Fixpoint scan (ltb : byte) (ok : needle -> bool) (ns : list needle)
     end
   end.
 
-Definition sm_find (ltb : byte) (ns : list needle) (hay : bytes) : option (nat * nat) :=
-  match scan ltb n_real ns None hay 0 with
+(* find_at(hay, at): the byte before [at] is visible as left context *)
+Definition sm_find_at (ltb : byte) (ns : list needle) (hay : bytes) (at_ : nat) : option (nat * nat) :=
+  let prev := if Nat.eqb at_ 0 then None else nth_error hay (at_ - 1) in
+  match scan ltb n_real ns prev (skipn at_ hay) at_ with
   | Some (i, n) => Some (i, i + length (n_bytes n))
   | None => None
   end.
@@ -40,8 +42,8 @@ Definition sm_candidate (ltb : byte) (ns : list needle) (confirm : bool) (hay : 
             2 = non_matching_bytes contains the terminator byte *)
 Definition scripted (cfg : config) (ns : list needle) (confirm : bool) (lt_mode : N) : matcher :=
   let ltb := lt_byte (c_lt cfg) in
-  {| m_is_match := fun l => match sm_find ltb ns l with Some _ => true | None => false end;
+  {| m_is_match := fun l => match sm_find_at ltb ns l 0 with Some _ => true | None => false end;
      m_find_candidate := sm_candidate ltb ns confirm;
      m_line_term := if (lt_mode =? 1)%N then Some (c_lt cfg) else None;
      m_nonmatching := fun b => (lt_mode =? 2)%N && (b =? ltb)%N;
-     m_find := sm_find ltb ns |}.
+     m_find_at := sm_find_at ltb ns |}.
